@@ -126,8 +126,10 @@ func fieldConstRange(key string) *constRange {
 			his = append(his, k)
 		}
 	}
-	var visit func(v ssa.Value, depth int)
-	visit = func(v ssa.Value, depth int) {
+	// (v is the field's value plus off: a bound K of v is the bound K-off of the field, so that a field
+	// which indexes a table as `tab[f+1]` gets the candidates of `tab[f]` shifted by one)
+	var visit func(v ssa.Value, depth int, off int64)
+	visit = func(v ssa.Value, depth int, off int64) {
 		if depth > 3 || v.Referrers() == nil {
 			return
 		}
@@ -142,12 +144,25 @@ func fieldConstRange(key string) *constRange {
 								add(k)
 								add(k - 1)
 								add(k + 1)
+								if off != 0 {
+									add(k - off)
+									add(k - off - 1)
+									add(k - off + 1)
+								}
 							}
 						}
 					}
 				case token.ADD, token.SUB:
-					if _, isC := x.Y.(*ssa.Const); isC {
-						visit(x, depth+1)
+					if cst, isC := x.Y.(*ssa.Const); isC {
+						d := off
+						if k, ok := constIntVal(cst); ok && x.X == v && k > -1<<20 && k < 1<<20 {
+							if x.Op == token.ADD {
+								d += k
+							} else {
+								d -= k
+							}
+						}
+						visit(x, depth+1, d)
 					}
 				}
 			case *ssa.IndexAddr:
@@ -159,15 +174,26 @@ func fieldConstRange(key string) *constRange {
 					if at, ok := t.(*types.Array); ok {
 						add(at.Len())
 						add(at.Len() - 1)
+						if off != 0 {
+							add(at.Len() - 1 - off)
+						}
 					}
 				}
 			case *ssa.Phi:
-				visit(x, depth+1)
+				visit(x, depth+1, off)
 			}
 		}
 	}
 	for _, ld := range loads {
-		visit(ld, 0)
+		visit(ld, 0, 0)
+	}
+	// the lower bound: 0, or the smallest negative constant the module stores to the field (a sentinel
+	// such as -1); like the upper bound it is only a candidate, every store is checked against it
+	lo := int64(0)
+	for _, st := range stores {
+		if k, ok := constIntVal(st.Val); ok && k < lo && k > -1<<31 {
+			lo = k
+		}
 	}
 	if len(his) == 0 || len(his) > 16 {
 		fieldRangeCache[key] = nil
@@ -183,14 +209,14 @@ func fieldConstRange(key string) *constRange {
 	}()
 	var best *constRange
 	for _, hi := range his {
-		cand := &constRange{0, hi}
+		cand := &constRange{lo, hi}
 		fieldRangeHyp[key] = cand
 		fiByFn = map[*ssa.Function]*funcInfo{}
 		ok := true
 		for _, st := range stores {
 			fi := newFuncInfo(st.Parent())
 			t := fi.term(st.Val)
-			if !fi.prove([]Lin{t, konst(hi).sub(t)}, fi.factsAt(st.Block(), st), 1) {
+			if !fi.prove([]Lin{t.addK(-lo), konst(hi).sub(t)}, fi.factsAt(st.Block(), st), 1) {
 				ok = false
 				break
 			}
